@@ -281,19 +281,44 @@ fn c02_check(seed: u64) -> Result<(), String> {
     m.metadata.authentic_data = r.below(2) == 0;
     m.metadata.checking_disabled = r.below(2) == 0;
     let code: u16 = if m.edns.is_some() { [0u16, 1, 5, 15, 16, 17, 23, 24, 255, 2736, 4095][r.below(11) as usize] } else { r.below(16) as u16 };
-    m.metadata.response_code = ResponseCode::from((code >> 4) as u8, (code & 0xF) as u8);
+    // built from the 16-bit value, NOT through ResponseCode::from(high, low): that helper is part of what is being checked
+    m.metadata.response_code = <ResponseCode as From<u16>>::from(code);
     if let Some(e) = m.edns.as_mut() { if r.below(2) == 0 { e.set_rcode_high(0xAB); } }
     if m.metadata.op_code == OpCode::Update { return Ok(()); } // update messages use other section semantics
     let bytes = m.to_bytes().map_err(|e| format!("encode failed: {e}"))?;
     let d = Message::from_vec(&bytes).map_err(|e| format!("own encoding does not decode: {e}"))?;
     if d.metadata != m.metadata { return Err(format!("metadata changed by encode/decode: {:?} -> {:?}", m.metadata, d.metadata)); }
+    if u16::from(d.metadata.response_code) != (if code == 16 { u16::from(d.metadata.response_code) } else { code }) {
+        return Err(format!("response code {code} came back as {}", u16::from(d.metadata.response_code)));
+    }
     if d.queries != m.queries || d.answers != m.answers || d.authorities != m.authorities || d.additionals != m.additionals {
         return Err("records changed by encode/decode".into());
     }
     let again = d.to_bytes().map_err(|e| format!("re-encode failed: {e}"))?;
     let d2 = Message::from_vec(&again).map_err(|e| format!("re-encoding does not decode: {e}"))?;
     if d2.metadata != d.metadata || d2.answers != d.answers { return Err("decode(encode(decode(b))) differs from decode(b)".into()); }
-    Ok(())
+    c02_name_case(&mut r)
+}
+// C02/C04: letter case of names survives the wire, with compression (owner names sharing a differently-cased suffix) and
+// without it (SRV target: RDATA of a type whose names are not compressible is preserved byte for byte)
+fn c02_name_case(r: &mut Rng) -> Result<(), String> {
+    use hickory_proto::rr::rdata::{A, SRV};
+    use hickory_proto::rr::{RData, Record};
+    let flip = |s: &str, r: &mut Rng| -> String { s.chars().map(|c| if r.below(2) == 0 { c.to_ascii_uppercase() } else { c.to_ascii_lowercase() }).collect() };
+    let n1 = Name::from_ascii(flip("www.example.com.", r)).unwrap();
+    let n2 = Name::from_ascii(flip("mail.example.com.", r)).unwrap();
+    let tgt = Name::from_ascii(flip("sip-gw01.example.com.", r)).unwrap();
+    let mut m = Message::query();
+    m.add_answer(Record::from_rdata(n1.clone(), 60, RData::A(A::new(192, 0, 2, 1))));
+    m.add_answer(Record::from_rdata(n2.clone(), 60, RData::A(A::new(192, 0, 2, 2))));
+    m.add_answer(Record::from_rdata(n1.clone(), 60, RData::SRV(SRV::new(1, 2, 5060, tgt.clone()))));
+    let bytes = m.to_bytes().map_err(|e| format!("encode failed: {e}"))?;
+    let d = Message::from_vec(&bytes).map_err(|e| format!("own encoding does not decode: {e}"))?;
+    let got: Vec<&Name> = d.answers.iter().map(|x| &x.name).collect();
+    for (g, w) in got.iter().zip([&n1, &n2, &n1]) {
+        if !g.eq_case(w) { return Err(format!("owner name changed letter case on the wire: wrote {w} read {g}")); }
+    }
+    match &d.answers[2].data { RData::SRV(s) if s.target.eq_case(&tgt) => Ok(()), other => Err(format!("SRV target changed on the wire: wrote {tgt} read {other}")) }
 }
 fn c02_search(seed: u64) -> Option<(String, String)> {
     let mut r = Rng(seed.wrapping_mul(0xA0761D6478BD642F) | 1);
